@@ -176,7 +176,7 @@ def probe_minc_geometry(T, fr, spacing, nplanes):
     """d[0..L-1], a[0..L-2] as the real minc computes them: run it on a one-block grid of volume 1, where the
     connection areas are 1.0 * a[m-1] and the distances [d[m-1], d[m]]"""
     g = T.t2grid(); rt = T.rocktype(); g.add_rocktype(rt); g.add_block(T.t2block('probe', 1.0, rt))
-    g.minc(list(fr), spacing=spacing, num_fracture_planes=nplanes)
+    g.minc(list(fr), spacing=spacing, num_fracture_planes=nplanes, blocks=['probe'])
     cons = g.connectionlist
     d = [float(cons[0].distance[0])] + [float(c.distance[1]) for c in cons]
     a = [float(c.area) for c in cons]
@@ -202,10 +202,11 @@ def encode_op(op):
     raise RuntimeError(op)
 
 
-def apply_op(g, op):
+def apply_op(g, op, geo=None):
     if op[0] == 'rn': g.rename_blocks(dict(op[1]), fix_blocknames=bool(op[2]))
     elif op[0] == 'ro':
-        g.reorder(block_names=list(op[1]) or None, connection_names=[tuple(c) for c in op[2]] or None)
+        if len(op) > 3 and op[3] == 'geo' and geo is not None: g.reorder(geo=geo)          # the lists in op[1], op[2] are the geometry's
+        else: g.reorder(block_names=list(op[1]) or None, connection_names=[tuple(c) for c in op[2]] or None)
     else: raise RuntimeError(op)
 
 
@@ -263,12 +264,13 @@ def phys_diff(p, q):
 def make_geo(params):
     """rectangular geometry, optionally made irregular: tilt, uneven surface, locally refined columns"""
     from mulgrids import mulgrid
-    nx, ny, nz, at, seed, tilt, surf, refine = params
+    nx, ny, nz, at, seed, tilt, surf, refine = params[:8]
+    at0 = params[8] if len(params) > 8 else None        # built with this atmosphere type, set to `at` through the property at the end
     r = random.Random(seed)
     dx = [r.choice([5., 10., 12.5, 20.]) for _ in range(nx)]
     dy = [r.choice([6., 10., 15.]) for _ in range(ny)]
     dz = [r.choice([2., 5., 8.]) for _ in range(nz)]
-    geo = mulgrid().rectangular(dx, dy, dz, atmos_type=at)
+    geo = mulgrid().rectangular(dx, dy, dz, atmos_type=at if at0 is None else at0)
     if tilt:
         geo.gdcx, geo.gdcy = r.choice([0.1, -0.2, 0.05]), r.choice([0., 0.15])
     if surf:
@@ -279,6 +281,7 @@ def make_geo(params):
     if refine:
         cols = [c.name for c in r.sample(geo.columnlist, 1)]
         geo.refine(cols)
+    if at0 is not None: geo.atmosphere_type = at         # the geometry reaches its atmosphere type by an edit, nothing refreshes it afterwards
     return geo
 
 
@@ -286,14 +289,30 @@ def random_geo_params(rng, size):
     if size == 'small': nx, ny, nz = rng.randint(1, 3), rng.randint(1, 2), rng.randint(1, 3)
     elif size == 'medium': nx, ny, nz = rng.randint(2, 5), rng.randint(2, 4), rng.randint(1, 3)
     else: nx, ny, nz = rng.randint(5, 7), rng.randint(4, 6), rng.randint(3, 4)
-    return (nx, ny, nz, rng.choice([0, 1, 2]), rng.getrandbits(30), rng.random() < 0.3, rng.random() < 0.3,
-            rng.random() < 0.25 and nx * ny >= 4 and size != 'large')
+    at = rng.choice([0, 1, 2])
+    return (nx, ny, nz, at, rng.getrandbits(30), rng.random() < 0.3, rng.random() < 0.3,
+            rng.random() < 0.25 and nx * ny >= 4 and size != 'large',
+            rng.choice([t for t in (0, 1, 2) if t != at]) if rng.random() < 0.35 else None,      # initial atmosphere type, changed by the setter
+            rng.random() < 0.4)                                                                  # several rock types, some named with digits
+
+
+ROCK_NAMES = ['    1', '    2', '    3', '    4', ' 2   ', '3    ', '00001', '   12', 'rock1', 'other', 'sand ']
+
+
+def assign_rocks(T, g, seed):
+    """1-3 more rock types with five-character names (digits included) spread over the blocks"""
+    r = random.Random(seed ^ 0x5eed)
+    for n in r.sample(ROCK_NAMES, r.randint(1, 3)):
+        g.add_rocktype(T.rocktype(n, density=r.choice([2400., 2650.]), porosity=r.choice([0.05, 0.2]), permeability=[r.choice([1.e-13, 2.e-14]), 1.e-14, 1.e-16]))
+    for b in g.blocklist:
+        if r.random() < 0.7: b.rocktype = r.choice(g.rocktypelist)
 
 
 def build(params):
     T = _impl()
     geo = make_geo(params)
     g = T.t2grid().fromgeo(geo)
+    if len(params) > 9 and params[9]: assign_rocks(T, g, params[4])
     return geo, g
 
 
@@ -307,13 +326,16 @@ def fresh_name(rng, taken):
         if n not in taken: return n
 
 
-def random_op(rng, g, geo, first):
+def random_op(rng, g, geo, first, prefer_geo=False):
     names = [b.name for b in g.blocklist]
     keys = list(g.connection.keys())
+    if first and geo is not None and prefer_geo and rng.random() < 0.6:
+        return ('ro', tuple(geo.block_name_list), tuple(tuple(c) for c in geo.block_connection_name_list), 'geo'), 'reorder:geo'
     if rng.random() < 0.55:
         style = rng.choice(['b', 'c', 'bc', 'bc', 'geo'])
         if style == 'geo' and first and geo is not None:
-            return ('ro', tuple(geo.block_name_list), tuple(tuple(c) for c in geo.block_connection_name_list)), 'reorder:geo'
+            # g.reorder(geo = geo): the lists are whatever the geometry holds at this moment
+            return ('ro', tuple(geo.block_name_list), tuple(tuple(c) for c in geo.block_connection_name_list), 'geo'), 'reorder:geo'
         bns, cns = (), ()
         if 'b' in style or style == 'geo':
             p = list(names); rng.shuffle(p); bns = tuple(p)
@@ -464,6 +486,8 @@ def reorder_rename_worker(args):
         if params[5]: st.sizes['tilted'] += 1
         if params[6]: st.sizes['uneven-surface'] += 1
         if params[7]: st.sizes['refined(irregular columns)'] += 1
+        if params[8] is not None: st.sizes['atmosphere-type-set-by-property(from %d)' % params[8]] += 1
+        if params[9]: st.sizes['several-rock-types:%d' % len(g.rocktypelist)] += 1
         prefix = grid_as_fields(g)
         hash_mode = nblk > 24
         show = (lambda s: adler(s)) if hash_mode else (lambda s: s)
@@ -475,7 +499,7 @@ def reorder_rename_worker(args):
         first_obj = g.blocklist[0]
         do_file = bool(with_files) and rng.random() < with_files and nblk <= 120
         for t in range(nops):
-            op, key = random_op(rng, g, geo, t == 0)
+            op, key = random_op(rng, g, geo, t == 0, prefer_geo=len(params) > 8 and params[8] is not None)
             if do_file and t == 0 and nblk > 1:
                 # the written file must not depend on where a block sits in the list: start with a block permutation
                 # that takes the first block (the atmosphere block of an atmosphere-type-0 grid) off position 0
@@ -487,7 +511,7 @@ def reorder_rename_worker(args):
             ops.append(op); st.kinds[key] += 1
             if op[0] == 'ro': st.reversed_conns += sum(1 for c in op[2] if c not in g.connection)
             case = {'geo': list(params), 'ops': [list(o) for o in ops]}
-            try: apply_op(g, op)
+            try: apply_op(g, op, geo)
             except Exception as e:
                 obs.append('E:' + exn_name(e)); st.errors[exn_name(e)] += 1
                 if not broken: st.failure(key.split(':')[0] + ':raises', case, 'raised %s' % exn_name(e), 'no exception for a valid ' + key.split(':')[0])
@@ -548,10 +572,11 @@ def minc_worker(args):
     st = Stats()
     T = _impl()
     lines, cases, expects = [], [], []
+    priors = PRIORS          # per process, not per job: what leaks between calls lives as long as the process
     for ci in range(ncases):
         if st.failn.get('minc:does-not-return'): break          # one hanging call per worker is enough
         params = random_geo_params(rng, rng.choice(sizes))
-        params = params[:7] + (False,)
+        params = params[:7] + (False, params[8], False)
         try: geo, g = build(params)
         except Exception as e:
             st.skipped['geometry-construction-failed:' + exn_name(e)] += 1; continue
@@ -574,6 +599,7 @@ def minc_worker(args):
             elif rng.random() < 0.3:
                 sel = [g.block[n] for n in sel]; style = 'partial(block objects)'          # block objects are accepted too
         atmos_volume = rng.choice([1.e25, 1.e25, 1.e25, 300., 1000.])
+        how = rng.choice(['omitted', 'omitted', 'None', 'empty-list', 'shared-empty-list']) if sel is None else 'given'
         if rng.random() < 0.3:                                      # a rock type that is not the default one
             rt = g.rocktypelist[0]
             rt.density, rt.porosity, rt.conductivity, rt.specific_heat = rng.choice([2500., 2650.]), rng.choice([0.05, 0.25]), rng.choice([2.0, 2.5]), rng.choice([800., 1000.])
@@ -583,7 +609,9 @@ def minc_worker(args):
         else: case_rock = None
         case = {'geo': list(params), 'volume_fractions': fr, 'spacing': spacing, 'num_fracture_planes': nplanes,
                 'blocks': None if sel is None else [b if isinstance(b, str) else b.name for b in sel],
-                'blocks_as_objects': bool(sel) and not isinstance(sel[0], str), 'atmos_volume': atmos_volume, 'rock': case_rock}
+                'blocks_as_objects': bool(sel) and not isinstance(sel[0], str), 'atmos_volume': atmos_volume, 'rock': case_rock, 'blocks_arg': how}
+        if how in priors: case['prior'] = priors[how]          # the first call of this process that asked for the default selection the same way
+        elif how in ('omitted', 'shared-empty-list'): priors[how] = dict(case)
         try:
             with time_limit(CASE_SECONDS): d_, a_ = probe_minc_geometry(T, fr, spacing, nplanes)
         except CaseTimeout:
@@ -599,6 +627,7 @@ def minc_worker(args):
         st.kinds['levels:%d' % nlev] += 1; st.kinds['planes:%d' % nplanes] += 1
         st.kinds['fractions-sum:' + ('<1' if fsum < 0.999 else '>1' if fsum > 1.001 else '=1')] += 1
         st.kinds[style] += 1
+        if sel is None: st.kinds['default-selection:' + how + (':after-an-earlier-such-call' if 'prior' in case else '')] += 1
         st.kinds['wf-hypothesis-holds' if wf_real(g) else 'wf-hypothesis-fails'] += 1
         st.cases += 1
         st.distinct.append(zlib.crc32(json.dumps(case, sort_keys=True).encode()))
@@ -621,6 +650,10 @@ def minc_worker(args):
     return st
 
 
+SHARED_EMPTY = []
+PRIORS = {}
+
+
 def minc_check(g, case, sel):
     """run minc on the real grid and evaluate the three MINC clauses; returns ([(key, observed, required)], exception name or None)"""
     fr = list(case['volume_fractions'])
@@ -630,9 +663,15 @@ def minc_check(g, case, sel):
     nold = len(g.connectionlist)
     selnames = order if sel is None else [b if isinstance(b, str) else b.name for b in sel]
     atm = case['atmos_volume']
+    kw = {}
+    how = case.get('blocks_arg', 'None') if sel is None else 'given'
+    if how == 'None': kw['blocks'] = None
+    elif how == 'empty-list': kw['blocks'] = []
+    elif how == 'shared-empty-list': kw['blocks'] = SHARED_EMPTY       # one caller-owned list object used for every such call of this process
+    elif how == 'given': kw['blocks'] = sel                              # 'omitted': the parameter is left out
     try:
         with time_limit(CASE_SECONDS):
-            g.minc(list(fr), spacing=case['spacing'], num_fracture_planes=case['num_fracture_planes'], blocks=sel, atmos_volume=atm)
+            g.minc(list(fr), spacing=case['spacing'], num_fracture_planes=case['num_fracture_planes'], atmos_volume=atm, **kw)
     except CaseTimeout:
         return [('minc:does-not-return', 'minc did not return within %d s' % CASE_SECONDS, 'minc completes')], 'Timeout'
     except Exception as e:
@@ -767,7 +806,7 @@ def embed_worker(args):
     for ci in range(ncases):
         if st.failn.get('embed:does-not-return'): break
         params = random_geo_params(rng, rng.choice(sizes))
-        params = params[:7] + (False,)
+        params = params[:7] + (False, params[8], False)
         try: geo, g = build(params)
         except Exception as e:
             st.skipped['geometry-construction-failed:' + exn_name(e)] += 1; continue
@@ -855,12 +894,14 @@ def sweep(ctx, exe, n_rr, n_minc, n_embed, sizes, with_files, label=''):
 def run(ctx):
     ctx.rule = ('grids built by the real t2grid().fromgeo from generated geometries (rectangular with uneven spacings, all three atmosphere types; '
                 'irregular variants: tilted gravity (gdcx/gdcy), uneven surface (truncated columns), locally refined columns with triangular transitions); '
+                'in 35% the geometry is built with another atmosphere type and reaches its own through the atmosphere_type property as the last edit; in 40% of the reorder/rename grids 1-3 more rock types with '
+                'five-character names (digit names such as \'    2\', \' 2   \', \'00001\' included) are spread over the blocks; '
                 '(1) 1-4 random calls of reorder (random permutation of blocks and/or connections, a random 0/20/50/100% of the connections listed with their blocks swapped, '
-                'or reorder by the geometry lists) and rename_blocks (fresh names, all blocks, swaps, cycles, chains; fix_blocknames on and off), each step compared with the '
+                'or g.reorder(geo=geo) as first call -- 60% of the first calls when the atmosphere type was set by the property) and rename_blocks (fresh names, all blocks, swaps, cycles, chains; fix_blocknames on and off), each step compared with the '
                 'extracted model (payload dump) and with the physical signature before; a sample (15% quick, 25% thorough; all three atmosphere types) starts with a block permutation that takes the first block '
                 '(the atmosphere block of a type-0 grid) off position 0 and ends with t2data.write / t2data(filename): the FULL signature (volume, rock type, CENTRE of every block; area, direction, own '
                 'distances, oriented cosine of every pair) must come back to file precision; '
-                '(2) minc with 2-6 volume fractions (summing to less than, exactly and more than 1; integers and floats), 1-3 fracture-plane sets, assorted spacings, all blocks or a random selection (names or block '
+                '(2) minc with 2-6 volume fractions (summing to less than, exactly and more than 1; integers and floats), 1-3 fracture-plane sets, assorted spacings, all blocks (blocks omitted / None / a fresh [] / one [] object re-used by every such call of the worker process, so that an earlier call of the same process precedes most of them) or a random selection (names or block '
                 'objects, sometimes with a repeated name: refusal), three atmos_volume cut-offs, a non-default rock type in 30%: the whole grid afterwards is '
                 'compared with the extracted MincModel and the three MINC clauses are evaluated on the real grid; a sample is written to a data file and read back; '
                 '(3) embed of a small rectangular sub-grid into a random host block (12% with colliding block names, some hosts too small, some atmosphere hosts); the connection handed to embed holds the grid\'s own '
@@ -908,8 +949,8 @@ def replay(ctx, data):
     if kind == 'rr':
         ph = phys(g)
         for o in case['ops']:
-            op = (o[0], tuple(tuple(x) for x in o[1]), o[2]) if o[0] == 'rn' else (o[0], tuple(o[1]), tuple(tuple(c) for c in o[2]))
-            try: apply_op(g, op)
+            op = (o[0], tuple(tuple(x) for x in o[1]), o[2]) if o[0] == 'rn' else (o[0], tuple(o[1]), tuple(tuple(c) for c in o[2])) + tuple(o[3:])
+            try: apply_op(g, op, geo)
             except Exception as e:
                 print('  %s raised %s' % (op[0], exn_name(e))); return True
             want = relabel(ph, dict(op[1])) if op[0] == 'rn' else ph
@@ -924,6 +965,12 @@ def replay(ctx, data):
     if kind == 'minc':
         sel = case['blocks']
         if sel is not None and case.get('blocks_as_objects'): sel = [g.block[n] for n in sel]
+        if case.get('prior'):
+            # the same process made an earlier minc call asking for the default selection the same way: repeat it first
+            pc = case['prior']
+            pgeo, pg = build(tuple(pc['geo']))
+            pout, pexc = minc_check(pg, pc, None)
+            print('  earlier call in the same process: geometry %r, blocks %s -> %s' % (tuple(pc['geo']), pc.get('blocks_arg'), pexc or 'ok'))
         if case.get('rock'):
             rt = g.rocktypelist[0]
             rt.density, rt.porosity, rt.conductivity, rt.specific_heat, perm, rt.compressibility = case['rock']
